@@ -581,15 +581,19 @@ func emit(g group) (string, []string) {
 			}
 			fmt.Fprintf(&b, "/-- %s: package-level variables that none of `%s` assigns at its top level %s -/\ndef %s : List String := [%s]\n", f.File, f.Func, f.Doc, f.Name, strings.Join(un, ", "))
 		case "callarg":
-			// String: the printed Sel-th argument of the first call of `Ident` in the function
-			fd := findFunc(af, f.Func)
-			if fd == nil {
-				fail("function not found")
-				continue
+			// String: the printed Sel-th argument of the first call of `Ident` in the function (whole file when Func is empty)
+			var scope ast.Node = af
+			if f.Func != "" {
+				fd := findFunc(af, f.Func)
+				if fd == nil {
+					fail("function not found")
+					continue
+				}
+				scope = fd.Body
 			}
 			ai, _ := strconv.Atoi(f.Sel)
 			txt, found := "", false
-			ast.Inspect(fd.Body, func(n ast.Node) bool {
+			ast.Inspect(scope, func(n ast.Node) bool {
 				if c, ok := n.(*ast.CallExpr); ok && !found && show(c.Fun) == f.Ident && ai < len(c.Args) {
 					txt, found = show(c.Args[ai]), true
 				}
